@@ -49,7 +49,9 @@ def wl_cbf(ctx, rng, case):
             n = rng.choice([1, 1, 1, 2, 3, 9, 1000])
             case.op("add", k, n)
             if rng.random() < 0.15:
-                ret = f.add_alt(f.hashes(k, kk + rng.randint(0, 5)), n)  # the key hashed for a (possibly) deeper structure
+                arg, cp = bl.alt_arg(ctx, f.hashes(k, kk + rng.choice([0, 0, 0, 1, 3, 5])))  # the key hashed for this or a deeper structure
+                ret = f.add_alt(arg, n)
+                bl.arg_unchanged(ctx, arg, cp, "add_alt")
                 ctx.count("op.add_alt_deeper_list")
             else:
                 ret = f.add(k, n) if n != 1 or rng.random() < 0.5 else f.add(k)
@@ -60,7 +62,9 @@ def wl_cbf(ctx, rng, case):
             n = rng.randint(1, out[k]) if rng.random() < 0.7 else out[k]
             case.op("remove", k, n)
             if rng.random() < 0.15:
-                ret = f.remove_alt(f.hashes(k, kk + rng.randint(0, 5)), n)
+                arg, cp = bl.alt_arg(ctx, f.hashes(k, kk + rng.choice([0, 0, 0, 1, 3, 5])))
+                ret = f.remove_alt(arg, n)
+                bl.arg_unchanged(ctx, arg, cp, "remove_alt")
                 ctx.count("op.remove_alt_deeper_list")
             else:
                 ret = f.remove(k, n) if n != 1 or rng.random() < 0.5 else f.remove(k)
@@ -122,7 +126,9 @@ def wl_cbf(ctx, rng, case):
                 ctx.fail(f"`in` disagrees with check() {where}", key=k)
             # the key hashed once for a DEEPER structure (prefix-stable strategies exist for exactly this): the count read through
             # check_alt with that list must not fall below the outstanding additions either
-            deep = f.check_alt(f.hashes(k, kk + 1 + step % 4))
+            arg, cp = bl.alt_arg(ctx, f.hashes(k, kk + step % 4))  # exactly this structure's depth every fourth time, deeper otherwise
+            deep = f.check_alt(arg)
+            bl.arg_unchanged(ctx, arg, cp, "check_alt")
             if deep < out[k]:
                 ctx.fail(f"check_alt() given a deeper hash list reports a count below the key's outstanding additions {where}", key=k, count=deep, outstanding=out[k], check=c)
         order = list(keys)
